@@ -1301,6 +1301,26 @@ pub fn gen_sub(prop: &str, tier: &str, seed: u64) -> Out {
                     o.stat("extreme:path-index");
                 }
             }
+            // the same extreme arguments on JSON-TEXT documents (the text branches do their own index arithmetic),
+            // every array length 0..4, every extreme index, flat and one level down
+            for n in 0..5usize {
+                let t = format!("[{}]", (0..n).map(|i| i.to_string()).collect::<Vec<_>>().join(","));
+                let tn = format!("[[{}]]", (0..n).map(|i| i.to_string()).collect::<Vec<_>>().join(","));
+                let to = format!("{{\"a\":{}}}", t);
+                for i in [i32::MIN as i64, i32::MIN as i64 + 1, i32::MIN as i64 + n as i64, -(n as i64) - 1, -(n as i64), -1, 0, n as i64, n as i64 + 1, i32::MAX as i64 - n as i64, i32::MAX as i64 - n as i64 + 1, i32::MAX as i64 - 1, i32::MAX as i64] {
+                    if i < i32::MIN as i64 || i > i32::MAX as i64 { continue; }
+                    let x = hex(t.as_bytes());
+                    o.push(format!("t:getkp {} i{}", x, i));
+                    o.push(format!("t:delkp - {} i{}", x, i));
+                    o.push(format!("t:delidx - {} {}", x, i));
+                    o.push(format!("t:arrins - {} {} {}", x, i, hex(b"null")));
+                    o.push(format!("t:getkp {} i0,i{}", hex(tn.as_bytes()), i));
+                    o.push(format!("t:delkp - {} i0,i{}", hex(tn.as_bytes()), i));
+                    o.push(format!("t:getkp {} n61,i{}", hex(to.as_bytes()), i));
+                    o.push(format!("t:delkp - {} n61,i{}", hex(to.as_bytes()), i));
+                    o.push(format!("tjtext getkp {} i{}", x, i));
+                }
+            }
             // the extreme indices through the parsers and the printers as well (parse, print, parse again)
             for p in ["$[2147483647]", "$[-2147483648]", "$[last-2147483648]", "$[last - 2147483647]", "$[last+2147483647]", "$[-2147483648 to 2147483647]", "$[last-2147483648 to last+2147483647]",
                       "$[2147483648]", "$[-2147483649]", "$[last-2147483649]", "$?(@ == -9223372036854775808)", "$?(@ == 18446744073709551615)", "$?(@ == 18446744073709551616)", "$?(@ == 1e400)"] {
